@@ -1474,9 +1474,13 @@ UNPROVED = [
     'not the rational biweight models (2^1070 denominators)',
     'source ties (tools/fnspecs/descriptives.py, C19_source_*): the elementwise weight/mask transforms, the update rule, the '
     'weighted-median midpoint / allowance / tie decision, the MAD scaling, the mse centring, _width2wing\'s arithmetic, guess_window_size '
-    'and savgol\'s parameter re-derivation are translated from the source; NOT translatable and tied by the correspondence only: chained '
-    'comparisons (0 < width < 1, 10 < n < 400), (1 - w_) ** 4, (w ** 2)[mask], the **kwargs wrappers on_array / on_weighted_array, '
-    'reductions and loops',
+    'and savgol\'s parameter re-derivation are translated from the source; second wave (tools/fnspecs/descriptives_e2.py): q_n\'s scale '
+    'dispatch (10 < n < 400) and nested loops, biweight_midvariance\'s masked pair (w ** 2)[mask] and result formula (the two reductions keyed '
+    'by their text, which pins (1 - w_) ** 4), gapper_scale, interquartile_range, weighted_median from the midpoint to the end as one '
+    'definition, the on_array / on_weighted_array wrappers (**kwargs only passed on) and the NaN fill of the weights; NOT translated and '
+    'tied by the correspondence only: _width2wing\'s dispatch 0 < width < 1 / int(width) == width as one function (the else branch raises), '
+    'the reductions themselves (sum, median, percentile, argsort, searchsorted, cumsum), check_inputs\' roll-off slices, rolling_median / '
+    'savgol / _fit_edges array code, the outlier masks',
     'exact rational biweight iterations are compared through a chain replayed from the iterates of the code (and exactly end-to-end on short '
     'vectors that stop within 2 steps): the loop composition on long vectors is sampled, not exhaustively compared',
 ]
